@@ -154,7 +154,15 @@ func runOne(ctx context.Context, sp solverSpec, file string, timeoutS int) solve
 	_ = cmd.Run()
 	ms := time.Since(t0).Milliseconds()
 	s := out.String()
-	first := strings.TrimSpace(strings.SplitN(s, "\n", 2)[0])
+	first := ""
+	for _, l := range strings.Split(s, "\n") {
+		l = strings.TrimSpace(l)
+		if l == "" || strings.HasPrefix(l, "WARNING") {
+			continue // solver warnings (e.g. a pattern that was dropped) precede the answer
+		}
+		first = l
+		break
+	}
 	ans := "unknown"
 	switch {
 	case first == "unsat":
